@@ -27,6 +27,7 @@ def seq_check(check, level, assumptions, parts=None, nshards=None, timeout=None)
 
 
 PROPS = {
+    "C01": seq_check("c01", "exploration", ["trees beyond the node bound are covered only by the parametric families"]),
     "C10": seq_check("c10", "exploration", [
         "NaN payload bits are not compared (a NaN must read back as a NaN): widening float32->float64->float32 quiets signalling NaNs in hardware",
         "float64 read through the float32 accessor: exactly representable values must be returned, finite magnitudes beyond MaxFloat32 must be errors; for in-range inexact values the statement is silent, so correct rounding or an error are both accepted",
